@@ -39,7 +39,7 @@ MANDATORY_LABELS["thorough"] = MANDATORY_LABELS["quick"]
 
 WIDTHS = ["2", "0.5", "3", "1.5", "4px", "3pt", "10", "0.25"]
 OPAC = ["0.5", "0.25", "1", "0.8", "0"]
-CLASSES = ["c1", "c2", "c3"]
+CLASSES = ["c1", "C1", "Wd-3"]  # class names are case-sensitive: .C1 does not select class c1
 
 
 def value_for(d, prop):
